@@ -68,11 +68,15 @@ PROPS = {
         ],
     },
     "C08": {
-        "level": "other", "prove": True, "ground": ["onlyPairsShareGroup", "laterPairsShareGroup", "tableShape"],
+        "level": "proof", "prove": True, "ground": ["onlyPairsShareGroup", "laterPairsShareGroup", "tableShape"],
         "bounded": {"search": "C08", "quick": "15s", "thorough": "120s",
-                    "what": "for every id X of the active and deprecated lists: X / X-only and X+ / X-or-later are interchanged as expression and as allowed entry against every id of the same family (with and without '+', with and without exception) and unrelated ids, on the real code (exhaustive over the shipped tables within the time budget; BOUNDED)"},
-        "explanation": "Table part (ground evaluation on every run): every listed id X and the id that 'X-only' denotes are identical, share a version group, or are both outside the family table. Code part: '-or-later counts as +' and 'the lookup strips -or-later' are proved clauses of the parser / getLicenseRange contracts (checked under C02 / C05); normalizeLicense is proved to accept a lexeme iff it is a valid id in the sense of the property (listed, or a listed id carrying -only / -or-later, or followed by '+' with a listed -or-later form) and to produce a list entry as token value; WHICH entry each spelling maps to (and hence the interchangeability of the spellings) is covered by the bounded execution over all listed ids.",
-        "assumptions": ["the mapping from spelling to canonical token value (normalizeLicense's priority order) is only covered by the bounded execution"],
+                    "what": "for every id X of the active and deprecated lists: X / X-only and X+ / X-or-later are interchanged as expression and as allowed entry against every id of the same family (with and without '+', with and without exception) and unrelated ids, on the real code (exhaustive over the shipped tables within the time budget; BOUNDED cross-check of the composition below)"},
+        "assumptions": [
+            "proved (code): normalizeLicense accepts a lexeme iff it is a valid id and returns the token (role, value) = (normRole, normVal)(lexeme, next character is '+'): the documented normalisation with its priority order - a listed id itself; X-only -> X when X-only is not listed; X followed by '+' -> the listed X-or-later, consuming the '+'; X-or-later -> X with the '+' flag when X-or-later is not listed; a deprecated id last; the parser sets the '+' flag from a '+' token or the suffix -or-later; getLicenseRange looks an id up with -or-later stripped (clauses tagged C08 in scan.go / parse.go / license.go contracts)",
+            "proved (lemma sameSlotInterchangeable, pure SMT): two license terms whose ids occupy the same slot (family, version) of the table, with the same '+' flag and exception, match exactly the same terms, on either side of the rule",
+            "ground (evaluated on the shipped tables on every run): for every listed X the id denoted by 'X-only' is X itself or lies in X's slot (onlyPairsShareGroup); 'X+' and 'X-or-later' yield the same token, or ids that are looked up as the same table entry, which must exist (laterPairsShareGroup)",
+            "composition (stated): with verdictIsSemL (C07) the verdict depends on a term only through which terms it matches, so interchangeable terms give the same verdict in the expression and in the allowed list; the code's extra shortcut 'canonical strings equal up to case' coincides with id equality on listed ids (foldUnique)",
+        ],
     },
     "C09": {
         "level": "proof", "prove": True, "ground": ["foldUnique", "noOperatorPrefix", "tableShape"],
